@@ -13,6 +13,10 @@ import (
 	gnmi "github.com/openconfig/gnmi/proto/gnmi"
 )
 
+// maxDecimal64Precision is the largest number of fraction digits of a YANG decimal64 (RFC 7950):
+// 10^precision has to fit an int64 (the string conversion divides by it), and the precision is kept in a uint8
+const maxDecimal64Precision = 18
+
 // GnmiTypedValueToNativeType converts gnmi type based values in to native byte array changes
 func GnmiTypedValueToNativeType(gnmiTv *gnmi.TypedValue, modelPath *configapi.ReadWritePath) (*configapi.TypedValue, error) {
 
@@ -38,6 +42,9 @@ func GnmiTypedValueToNativeType(gnmiTv *gnmi.TypedValue, modelPath *configapi.Re
 	case *gnmi.TypedValue_BytesVal:
 		return configapi.NewTypedValueBytes(v.BytesVal), nil
 	case *gnmi.TypedValue_DecimalVal:
+		if v.DecimalVal.Precision > maxDecimal64Precision {
+			return nil, fmt.Errorf("decimal64 precision %d exceeds %d", v.DecimalVal.Precision, maxDecimal64Precision)
+		}
 		return configapi.NewTypedValueDecimal(v.DecimalVal.Digits, uint8(v.DecimalVal.Precision)), nil
 	case *gnmi.TypedValue_FloatVal:
 		return configapi.NewTypedValueFloat(float64(v.FloatVal)), nil
@@ -79,6 +86,9 @@ func handleLeafList(gnmiLl *gnmi.TypedValue_LeaflistVal, typeOpt0 uint8) (*confi
 		case *gnmi.TypedValue_BytesVal:
 			bytesList = append(bytesList, u.BytesVal)
 		case *gnmi.TypedValue_DecimalVal:
+			if u.DecimalVal.Precision > maxDecimal64Precision {
+				return nil, fmt.Errorf("decimal64 precision %d exceeds %d", u.DecimalVal.Precision, maxDecimal64Precision)
+			}
 			digitsList = append(digitsList, u.DecimalVal.Digits)
 			precision = uint8(u.DecimalVal.Precision)
 		case *gnmi.TypedValue_FloatVal:
